@@ -201,6 +201,7 @@ func splitInput(queries []fastaio.EncodedFastaRecord, measure string, cIn chan f
 		if targetCounter == 0 {
 			if len(EFR.Seq) != len(queries[0].Seq) {
 				cErr <- errors.New("query and target alignments are not the same width")
+				return
 			}
 		}
 		targetCounter++
